@@ -67,14 +67,61 @@ Proof.
   simpl. inversion F as [|? ? Hm Hl]; subst. rewrite (IH (exec s m) q Hl N). now apply (exec_only_file t).
 Qed.
 
+(* a crash cut keeps any step predicate that survives shortening a write *)
+Lemma cut_forall (P : mstep -> Prop) l pre :
+  (forall q d d', P (Write q (d ++ d')) -> P (Write q d)) ->
+  crash_cut l pre -> Forall P l -> Forall P pre.
+Proof.
+  intro HP. induction 1; intro F.
+  - constructor.
+  - inversion F; subst. constructor; [eauto|constructor].
+  - inversion F; subst. constructor; auto.
+Qed.
+
 (* a crash cut of steps that only concern [t] only concerns [t] *)
 Lemma cut_only_file t l pre :
   crash_cut l pre -> Forall (only_file t) l -> Forall (only_file t) pre.
+Proof. apply cut_forall. intros q d d' H. exact H. Qed.
+
+Definition is_mkdir (m : mstep) : Prop := match m with MkdirAll _ _ => True | _ => False end.
+Definition no_mkdir (m : mstep) : Prop := match m with MkdirAll _ _ => False | _ => True end.
+
+Lemma exec_mkdir_files s m : is_mkdir m -> fs_files (exec s m) = fs_files s.
+Proof. destruct m; simpl; try contradiction. intros _. destruct (dget d s); reflexivity. Qed.
+
+Lemma exec_all_mkdir_files l : forall s, Forall is_mkdir l -> fs_files (exec_all s l) = fs_files s.
 Proof.
-  induction 1; intro F.
-  - constructor.
-  - inversion F; subst. constructor; [assumption|constructor].
-  - inversion F; subst. constructor; auto.
+  unfold exec_all. induction l as [|m l IH]; intros s F; [reflexivity|].
+  inversion F as [|? ? Hm Hl]; subst. simpl. rewrite (IH _ Hl). now apply exec_mkdir_files.
+Qed.
+
+Lemma exec_no_mkdir_dirs s m : no_mkdir m -> fs_dirs (exec s m) = fs_dirs s.
+Proof.
+  destruct m; simpl; try contradiction; intros _; try reflexivity.
+  - destruct (fget p s); reflexivity.
+  - destruct (fget p s); reflexivity.
+  - destruct (fget p s); reflexivity.
+  - destruct (fget src s); reflexivity.
+Qed.
+
+Lemma exec_all_no_mkdir_dirs l : forall s, Forall no_mkdir l -> fs_dirs (exec_all s l) = fs_dirs s.
+Proof.
+  unfold exec_all. induction l as [|m l IH]; intros s F; [reflexivity|].
+  inversion F as [|? ? Hm Hl]; subst. simpl. rewrite (IH _ Hl). now apply exec_no_mkdir_dirs.
+Qed.
+
+(* cutting [A ++ B]: inside A, or all of A and a cut of B *)
+Lemma cut_app A B pre :
+  crash_cut (A ++ B) pre -> crash_cut A pre \/ exists pre', pre = A ++ pre' /\ crash_cut B pre'.
+Proof.
+  revert pre. induction A as [|m A IH]; intros pre C; simpl in C.
+  - right. exists pre. split; [reflexivity|exact C].
+  - inversion C; subst.
+    + left. constructor.
+    + left. constructor.
+    + match goal with H : crash_cut (A ++ B) _ |- _ => destruct (IH _ H) as [L|(pre' & -> & R)] end.
+      * left. now constructor.
+      * right. exists pre'. split; [reflexivity|exact R].
 Qed.
 
 (* cutting [A ++ [r]] where [r] is not a write: inside A, or everything *)
@@ -157,40 +204,58 @@ Qed.
 
 (* ---------- the save ---------- *)
 Section Save.
-  Variables (dir p t : path) (chunks : list str).
+  Variables (chain : list path) (p t : path) (chunks : list str).
   Hypothesis t_not_p : t <> p.
 
-  Let prefix_steps := [MkdirAll dir mode_dir; CreateExcl t mode_file; Chmod t mode_file]
-                        ++ map (Write t) chunks ++ [Close t].
+  Let mkdirs := map (fun d => MkdirAll d mode_dir) chain.
+  Let tail_steps := [CreateExcl t mode_file; Chmod t mode_file] ++ map (Write t) chunks ++ [Close t].
+  Let prefix_steps := mkdirs ++ tail_steps.
 
-  Lemma save_steps_split : save_steps dir p t chunks = prefix_steps ++ [Rename t p].
-  Proof. unfold save_steps, prefix_steps. simpl. rewrite <- app_assoc. reflexivity. Qed.
-
-  Lemma prefix_only_t : Forall (only_file t) prefix_steps.
+  Lemma save_steps_split : save_steps chain p t chunks = prefix_steps ++ [Rename t p].
   Proof.
-    unfold prefix_steps. repeat (constructor; [simpl; auto|]).
+    unfold save_steps, prefix_steps, tail_steps, mkdirs. rewrite <- !app_assoc. reflexivity.
+  Qed.
+
+  Lemma mkdirs_are_mkdir : Forall is_mkdir mkdirs.
+  Proof. apply Forall_forall. intros m I. apply in_map_iff in I as (c & <- & _). exact I. Qed.
+
+  Lemma mkdirs_only_t : Forall (only_file t) mkdirs.
+  Proof. apply Forall_forall. intros m I. apply in_map_iff in I as (c & <- & _). exact I. Qed.
+
+  Lemma tail_only_t : Forall (only_file t) tail_steps.
+  Proof.
+    unfold tail_steps. repeat (constructor; [simpl; auto|]).
     apply Forall_app. split.
     - apply Forall_forall. intros m I. apply in_map_iff in I as (c & <- & _). reflexivity.
     - repeat constructor.
   Qed.
 
-  Let s3 (s : fs) := exec (exec (exec s (MkdirAll dir mode_dir)) (CreateExcl t mode_file)) (Chmod t mode_file).
+  Lemma prefix_only_t : Forall (only_file t) prefix_steps.
+  Proof. apply Forall_app. split; [apply mkdirs_only_t|apply tail_only_t]. Qed.
+
+  Lemma mkdirs_fget q s : fget q (exec_all s mkdirs) = fget q s.
+  Proof. unfold fget. now rewrite (exec_all_mkdir_files mkdirs s mkdirs_are_mkdir). Qed.
+
+  Let s3 (s : fs) := exec (exec (exec_all s mkdirs) (CreateExcl t mode_file)) (Chmod t mode_file).
 
   Lemma s3_temp s : fget t s = None -> temp_is t [] (s3 s).
   Proof.
     intro FR. unfold temp_is, s3.
     rewrite (exec_chmod t mode_file {| f_data := []; f_mode := mode_file |}); [reflexivity|].
-    apply exec_create_fresh. now rewrite exec_mkdir_fget.
+    apply exec_create_fresh. now rewrite mkdirs_fget.
   Qed.
 
   Lemma prefix_exec s : exec_all s prefix_steps = exec_all (s3 s) (map (Write t) chunks).
-  Proof. unfold prefix_steps, exec_all, s3. cbn [app fold_left]. rewrite fold_left_app. reflexivity. Qed.
+  Proof.
+    unfold prefix_steps, tail_steps, exec_all, s3. rewrite fold_left_app. cbn [app fold_left].
+    rewrite fold_left_app. reflexivity.
+  Qed.
 
   (* the complete save: the config path holds exactly the new content, 0600, and
      the ingest file is gone *)
   Lemma save_complete s :
     fget t s = None ->
-    let s' := exec_all s (save_steps dir p t chunks) in
+    let s' := exec_all s (save_steps chain p t chunks) in
     fget p s' = Some {| f_data := concat chunks; f_mode := mode_file |} /\
     fget t s' = None /\
     (forall q, q <> p -> q <> t -> fget q s' = fget q s).
@@ -206,10 +271,33 @@ Section Save.
     apply (exec_all_only_file t prefix_steps s q prefix_only_t N2).
   Qed.
 
+  (* the ingest file during the part after the mkdirs *)
+  Lemma tail_temp s1 pre' :
+    fget t s1 = None -> crash_cut tail_steps pre' ->
+    fget t (exec_all s1 pre') = None \/
+    exists d, temp_is t d (exec_all s1 pre') /\ is_prefix d (concat chunks).
+  Proof.
+    intros F1 C. unfold tail_steps in C. cbn [app] in C.
+    inversion C as [|?|m l l'' C2]; subst; [left; exact F1|].
+    pose proof (exec_create_fresh t mode_file _ F1) as T2.
+    right.
+    inversion C2 as [|?|m l l3 C3]; subst; [exists []; split; [exact T2|now exists (concat chunks)]|].
+    assert (T3 : temp_is t [] (exec (exec s1 (CreateExcl t mode_file)) (Chmod t mode_file))).
+    { unfold temp_is. rewrite (exec_chmod t mode_file {| f_data := []; f_mode := mode_file |}); [reflexivity|exact T2]. }
+    apply cut_snoc in C3; [|discriminate].
+    unfold exec_all. cbn [fold_left].
+    match goal with |- context [fold_left exec l3 ?S] => fold (exec_all S l3) end.
+    destruct C3 as [C3|E3].
+    - destruct (cut_writes t chunks [] _ l3 T3 C3) as (d' & T & P). exists d'. split; assumption.
+    - subst l3. exists (concat chunks). split; [|exists []; now rewrite app_nil_r].
+      unfold exec_all. rewrite fold_left_app. cbn [fold_left exec].
+      apply (exec_writes t chunks [] _ T3).
+  Qed.
+
   (* every crash point *)
   Lemma save_atomic s pre :
     fget t s = None ->
-    crash_cut (save_steps dir p t chunks) pre ->
+    crash_cut (save_steps chain p t chunks) pre ->
     let s' := exec_all s pre in
     (* the config path: complete old or complete new file *)
     (fget p s' = fget p s \/
@@ -226,26 +314,113 @@ Section Save.
       split; [left; apply (exec_all_only_file t pre s p O); congruence|].
       split; [intros q N1 N2; now apply (exec_all_only_file t pre s q O)|].
       (* the ingest file *)
-      clear O. unfold prefix_steps in C. cbn [app] in C.
-      inversion C as [|?|m l l' C1]; subst; [left; exact FR|].
-      assert (F1 : fget t (exec s (MkdirAll dir mode_dir)) = None) by (now rewrite exec_mkdir_fget).
-      inversion C1 as [|?|m l l'' C2]; subst; [left; exact F1|].
-      pose proof (exec_create_fresh t mode_file _ F1) as T2.
-      right.
-      inversion C2 as [|?|m l l3 C3]; subst; [exists []; split; [exact T2|now exists (concat chunks)]|].
-      pose proof (s3_temp s FR) as T3.
-      apply cut_snoc in C3; [|discriminate].
-      unfold exec_all. cbn [fold_left]. fold (s3 s). fold (exec_all (s3 s) l3).
-      destruct C3 as [C3|E3].
-      + destruct (cut_writes t chunks [] _ l3 T3 C3) as (d' & T & P). exists d'. split; assumption.
-      + subst l3. exists (concat chunks). split; [|exists []; now rewrite app_nil_r].
-        unfold exec_all. rewrite fold_left_app. cbn [fold_left exec].
-        apply (exec_writes t chunks [] _ T3).
+      clear O. unfold prefix_steps in C. apply cut_app in C as [CM|(pre' & -> & CT)].
+      + left. unfold fget.
+        rewrite (exec_all_mkdir_files pre s); [exact FR|].
+        apply (cut_forall is_mkdir mkdirs pre); [intros q d d' H; exact H|exact CM|apply mkdirs_are_mkdir].
+      + unfold exec_all. rewrite fold_left_app. fold (exec_all s mkdirs).
+        fold (exec_all (exec_all s mkdirs) pre').
+        apply tail_temp; [now rewrite mkdirs_fget|exact CT].
     - subst pre. rewrite <- save_steps_split.
       destruct (save_complete s FR) as (P & T & Q).
       split; [right; exact P|]. split; [exact Q|]. left. exact T.
   Qed.
+
+  (* os.MkdirAll: once the mkdirs are done -- in particular after the save --
+     every level of the chain exists; a level that was missing has mode 0700, an
+     existing one keeps its mode; no other directory changes *)
+  Lemma mkdirs_dget d : forall s,
+    dget d (exec_all s mkdirs) =
+    if existsb (str_eqb d) chain
+    then Some (match dget d s with Some m => m | None => mode_dir end)
+    else dget d s.
+  Proof.
+    unfold mkdirs. clear. induction chain as [|c l IH]; intro s; [reflexivity|].
+    unfold exec_all in *. cbn [map fold_left existsb]. rewrite IH.
+    assert (E : dget d (exec s (MkdirAll c mode_dir)) =
+                if str_eqb d c then Some (match dget d s with Some m => m | None => mode_dir end) else dget d s).
+    { cbn [exec]. destruct (str_eqb d c) eqn:EC.
+      - apply str_eqb_spec in EC. subst c. destruct (dget d s) eqn:ED; [exact ED|].
+        unfold dget. cbn [fs_dirs]. apply pget_pset_eq.
+      - apply peqb_false in EC. destruct (dget c s); [reflexivity|].
+        unfold dget. cbn [fs_dirs]. apply pget_pset_neq. congruence. }
+    rewrite E. destruct (str_eqb d c); cbn [orb].
+    - destruct (existsb (str_eqb d) l); reflexivity.
+    - reflexivity.
+  Qed.
+
+  Lemma save_dirs s d :
+    dget d (exec_all s (save_steps chain p t chunks)) =
+    if existsb (str_eqb d) chain
+    then Some (match dget d s with Some m => m | None => mode_dir end)
+    else dget d s.
+  Proof.
+    rewrite save_steps_split. unfold prefix_steps, exec_all. rewrite !fold_left_app.
+    fold (exec_all s mkdirs). fold (exec_all (exec_all s mkdirs) tail_steps).
+    fold (exec_all (exec_all (exec_all s mkdirs) tail_steps) [Rename t p]).
+    unfold dget at 1.
+    rewrite exec_all_no_mkdir_dirs by (repeat constructor).
+    rewrite exec_all_no_mkdir_dirs.
+    - apply mkdirs_dget.
+    - unfold tail_steps. repeat (constructor; [exact I|]). apply Forall_app. split.
+      + apply Forall_forall. intros m HI. apply in_map_iff in HI as (c & <- & _). exact I.
+      + repeat constructor.
+  Qed.
+
+  (* a symlinked config path: the reader sees the old target or the complete
+     new file; the target itself is never written *)
+  Lemma prefix_no_rename pre : Forall (only_file t) pre -> renamed_onto p pre = false.
+  Proof.
+    induction 1 as [|m l Hm Hl IH]; [reflexivity|].
+    unfold renamed_onto in *. cbn [existsb]. rewrite IH. destruct m; try reflexivity. contradiction.
+  Qed.
+
+  Lemma symlink_path q s pre :
+    q <> p -> q <> t -> fget t s = None ->
+    crash_cut (save_steps chain p t chunks) pre ->
+    (read_via_link p q s pre = fget q s \/
+     read_via_link p q s pre = Some {| f_data := concat chunks; f_mode := mode_file |}) /\
+    fget q (exec_all s pre) = fget q s /\
+    (pre = save_steps chain p t chunks ->
+     read_via_link p q s pre = Some {| f_data := concat chunks; f_mode := mode_file |}).
+  Proof.
+    intros NQP NQT FR C.
+    destruct (save_atomic s pre FR C) as (_ & OTH & _).
+    assert (Q : fget q (exec_all s pre) = fget q s) by (now apply OTH).
+    assert (FULL : renamed_onto p (save_steps chain p t chunks) = true).
+    { rewrite save_steps_split. unfold renamed_onto. rewrite existsb_app. cbn [existsb].
+      rewrite str_eqb_refl. now rewrite !orb_true_r. }
+    destruct (save_complete s FR) as (P & _ & _).
+    split; [|split; [exact Q|]].
+    - pose proof C as C'. rewrite save_steps_split in C'. apply cut_snoc in C'; [|discriminate].
+      destruct C' as [CP|E].
+      + left. unfold read_via_link.
+        rewrite (prefix_no_rename pre (cut_only_file t _ _ CP prefix_only_t)). exact Q.
+      + right. rewrite <- save_steps_split in E. subst pre. unfold read_via_link. rewrite FULL. exact P.
+    - intros ->. unfold read_via_link. rewrite FULL. exact P.
+  Qed.
 End Save.
+
+(* the mode of the config file never depends on the file that was there: after
+   the save it is 0600, and at every crash cut the path either still holds the
+   old file (data and mode untouched) or holds a file of mode 0600 *)
+Lemma mode_owner_only (dir : list path) (p t : path) (chunks : list str) :
+  t <> p -> forall s,
+  fget t s = None ->
+  (forall f, fget p (exec_all s (save_steps dir p t chunks)) = Some f -> f_mode f = mode_file) /\
+  (exists f, fget p (exec_all s (save_steps dir p t chunks)) = Some f) /\
+  (forall pre f, crash_cut (save_steps dir p t chunks) pre ->
+                 fget p (exec_all s pre) = Some f -> fget p (exec_all s pre) <> fget p s -> f_mode f = mode_file).
+Proof.
+  intros NE s FR. destruct (save_complete dir p t chunks NE s FR) as (P & _ & _).
+  split; [|split].
+  - intros f E. rewrite P in E. injection E as <-. reflexivity.
+  - eexists. exact P.
+  - intros pre f C E D.
+    destruct (save_atomic dir p t chunks NE s pre FR C) as ([OLD|NEW] & _ & _).
+    + contradiction.
+    + rewrite NEW in E. injection E as <-. reflexivity.
+Qed.
 
 (* ---------- one store operation, crash at any point ---------- *)
 From Oras Require Import Generated.GC18 Model.CredFile.
@@ -273,7 +448,7 @@ Section OpSaveProofs.
   Lemma cut_nil pre : crash_cut [] pre -> pre = [].
   Proof. inversion 1; reflexivity. Qed.
 
-  Lemma atomic_op (dir p t : path) st o s pre :
+  Lemma atomic_op (dir : list path) (p t : path) st o s pre :
     t <> p -> fget t s = None ->
     disk_view parse p s = view_of (st_file st) ->
     crash_cut (op_steps enc dec render chunking dir p t st o) pre ->
